@@ -15,7 +15,9 @@ RULE = (
     "case = (mode, recurrence spec as in C12, probe points): probes lie "
     "before, on, between and after members; members are re-spelled in other "
     "UTC offsets / representations / 24:00 form; the last member of a bounded "
-    "series is always probed. Oracle = the library's own iteration "
+    "series is always probed; one case in six also passes the constructor's "
+    "max_point (min_point for a series that runs backwards) at or between "
+    "members, which bounds the series like an end point. Oracle = the library's own iteration "
     "(materialised past every probe; iteration itself is decided by C12): "
     "get_is_valid(p) <=> a member has p's instant (also for probes a fraction "
     "of a second off a member); r[i] is the i-th member "
@@ -54,13 +56,21 @@ def check_case(case):
     nontrivial = False
     with M.use_mode(mode):
         try:
-            r = RC.build(spec)
+            descending = spec["fmt"] == 4 and n is None
+            extra = None
+            if case.get("limit"):
+                # the constructor's max_point (min_point for a series that
+                # runs backwards) cuts the far end of the series
+                extra = {"min_point" if descending else "max_point":
+                         M.make_point(case["limit"])}
+                classes.append("limit/" + ("min_point" if descending else
+                                           "max_point"))
+            r = RC.build(spec, extra)
             members = list(itertools.islice(iter(r), KM + 1))
             complete = len(members) <= KM       # whole (bounded) series seen
             members = members[:KM]
             mi = instants(cm, members)
             text = RC.render(spec)
-            descending = spec["fmt"] == 4 and n is None
             has_start = r.start_point is not None
             lo, hi = (min(mi), max(mi)) if mi else (None, None)
             # ---- indexing
@@ -201,7 +211,13 @@ def st_case(draw):
                                                                0.999]))
         probes.append(kw)
     top = len(ri) + 2
-    return {"mode": mode, "spec": spec, "probes": probes,
+    limit = None
+    if draw(st.integers(0, 5)) == 0:
+        # never before the anchor: an anchor outside min/max_point is a
+        # degenerate configuration the statement says nothing about
+        limit = G.respell(draw, cm, draw(st.sampled_from(
+            [c for c in cands if c[0] != "outside"]))[1])
+    return {"limit": limit, "mode": mode, "spec": spec, "probes": probes,
             "indices": draw(st.lists(st.integers(0, top), min_size=1, max_size=3)),
             "neighbours": draw(st.lists(st.integers(0, max(len(ri) - 1, 0)),
                                         min_size=1, max_size=3)) + [len(ri) - 1]}
